@@ -592,10 +592,22 @@ def run(check):
       stores = [n for n in g.nodes if n.kind == 'stmt' and isinstance(n.ast, ast.Assign) and any(
         isinstance(tg, ast.Subscript) and dotted(tg.value) == 'self.cache' for tg in n.ast.targets)]
       rets = [n for n in g.nodes if n.kind == 'stmt' and isinstance(n.ast, ast.Return)]
-      okc = bool(stores) and all(unparse(s.ast.targets[0].slice) == gam.params[1] and isinstance(s.ast.value, ast.Name) for s in stores)
+      def _key_store(s_):
+        for tg in s_.ast.targets:
+          if isinstance(tg, ast.Subscript) and dotted(tg.value) == 'self.cache':
+            return tg
+        return None
+      # self.cache[<whole path>] = <result> [= ...]; the result stored is the result returned
+      okc = bool(stores) and all(unparse(_key_store(s_).slice) == gam.params[1] for s_ in stores)
       if okc:
-        rv = stores[0].ast.value.id
-        final = [r for r in rets if isinstance(r.ast.value, ast.Name) and r.ast.value.id == rv]
+        vn_g = ValueNumbers(cx, gam)
+        stored = {vn_g.term(s_.ast.value, s_) for s_ in stores} | {
+          vn_g.term(tg, s_) for s_ in stores for tg in s_.ast.targets if isinstance(tg, ast.Name)}
+        final = [r for r in rets if r.ast.value is not None and (
+          vn_g.term(r.ast.value, r) in stored or
+          (isinstance(r.ast.value, ast.Name) and any(isinstance(tg, ast.Name) and tg.id == r.ast.value.id
+                                                      for s_ in stores for tg in s_.ast.targets)) or
+          (isinstance(r.ast.value, ast.Name) and any(isinstance(s_.ast.value, ast.Name) and s_.ast.value.id == r.ast.value.id for s_ in stores)))]
         okc = bool(final)
       init = repo.cls('carbon.aggregator.rules', 'AggregationRule').methods.get('__init__')
       per_rule = init is not None and _fresh_cache_per_rule(cx, init)
